@@ -113,11 +113,12 @@ def resubmit_jobs(output, failed, missing, successful, submission_groups_file, v
     _reset_results(output, jobs_to_resubmit)
     cluster.prepare_for_resubmission(jobs_to_resubmit, updated_blocking_jobs_by_name)
     events_dir = Path(output) / EVENTS_DIR
-    for path in list(events_dir.iterdir()):
-        # These files will get regenerated. It would be better to only generate events for new
-        # compute node batches, but the code in events.py doesn't support that.
-        # TODO
-        path.unlink()
+    if events_dir.exists():
+        for path in list(events_dir.iterdir()):
+            # These files will get regenerated. It would be better to only generate events for new
+            # compute node batches, but the code in events.py doesn't support that.
+            # TODO
+            path.unlink()
 
     ret = 1
     try:
